@@ -183,10 +183,18 @@ def write_blocks(path, scripts):
             f.write("END\n")
 
 
+UB_RE = re.compile(r"^L t=-?\d+ 9 ")
+
+
 def first_diff(a, b):
+    """a = model trace, b = implementation trace.  A model line with tag 9 says: here the C++ has
+    no defined behaviour (null/dangling dereference ...); the implementation crashing at exactly
+    that point is agreement about WHERE things go wrong (it is still a failure of the property)."""
     for i in range(max(len(a), len(b))):
         x = a[i] if i < len(a) else "<end of trace>"
         y = b[i] if i < len(b) else "<end of trace>"
+        if UB_RE.match(x) and y.startswith("CRASH"):
+            return None
         if x != y:
             return i, x, y
     return None
